@@ -20,6 +20,14 @@ never happens for `limit ≥ 1`.
 One `poll` of one call future is one step. `acquire()` runs inside the boxed `async` block of
 `RateLimiter::call`, i.e. at the **first poll** of the returned future, and `sleep(wait)` is
 created (and polled) in that same poll: the arrival instant of a caller is its first poll.
+
+Readiness of the wrapped service. `RateLimiter::poll_ready` forwards to the wrapped service and
+`call` hands the request to the very instance that was polled (leaving a fresh clone behind), so
+(a) while the wrapped service is not ready (`busyUntil`, set by the operation `manual busy ms=n`: a
+saturated backend that answers `Pending` until `now + n`) a caller gets no call future at all — it is
+turned away before `call` (`result c notready`), takes no permit and never reaches the wrapped
+service; and (b) every call of the wrapped service goes to an instance that has reported ready
+(`wire`: the `ready=1` of the strict scripted service's `inner_call` line).
 -/
 namespace TR.RateLimiter
 
@@ -155,6 +163,7 @@ structure State where
   doneAt  : List (Nat × Nat) := []
   kOf     : List (Nat × Nat) := []
   serial  : Nat := 0
+  busyUntil : Nat := 0                 -- the wrapped service answers `Pending` to `poll_ready` before this instant
   admits  : List (Nat × Nat) := []     -- ghost: (caller, instant) of every inner call, in order
   log     : List Ev := []              -- ghost: every event so far
 deriving Repr
@@ -164,6 +173,7 @@ inductive Op
   | poll (c : Nat) (rej woke : Bool)   -- with the implementation's observed choices
   | drop (c : Nat)
   | adv (ms : Nat)
+  | busy (ms : Nat)                    -- the wrapped service is not ready for the next `ms` ticks
 deriving Repr
 
 def emit (s : State) (evs : List Ev) : State := { s with log := s.log ++ evs }
@@ -196,6 +206,9 @@ def admitCall (s : State) (c arr : Nat) : State := pollRunning (startInner s c a
 
 /-- `Err(RateLimiterServiceError::RateLimited)` -/
 def rejectCall (s : State) (c : Nat) : State := emit (setPh s c (.done false)) [.result c .rateLimited]
+
+/-- `poll_ready` of the wrapped service is pending when the caller arrives: no call is made -/
+def notReadyCall (s : State) (c : Nat) : State := emit (setPh s c (.done false)) [.result c .notReady]
 
 def badChoice (s : State) : State := emit s [.raw "choice-not-allowed"]
 
@@ -241,7 +254,10 @@ def stepS (cfg : Cfg) (s : State) (op : Op) : State :=
   match op with
   | .adv ms => { s with now := s.now + ms }
   | .arrive c sc =>
-      if (phaseOf s c).isSome then s else { setPh s c .fresh with script := (c, sc) :: s.script }
+      if (phaseOf s c).isSome then s
+      else if s.now < s.busyUntil then notReadyCall s c
+      else { setPh s c .fresh with script := (c, sc) :: s.script }
+  | .busy ms => { s with busyUntil := s.now + ms }
   | .poll c rej woke =>
       match phaseOf s c with
       | some .fresh => pollFresh cfg s c rej
@@ -271,7 +287,16 @@ def parseOp (ws : List String) : Option Op :=
       some (.poll (c.toNat?.getD 0) (flag kv "@rej") (flag kv "@woke"))
   | "drop" :: c :: _ => some (.drop (c.toNat?.getD 0))
   | "adv" :: ms :: _ => some (.adv (ms.toNat?.getD 0))
+  | "manual" :: "busy" :: rest => some (.busy ((parseKv rest).nat "ms" 0))
   | _ => none
+
+/-- The wrapped service of the harness is the strict scripted service: its `inner_call` line also
+carries the request tag (the caller id) and whether the called instance had been polled ready.
+The model's claim: always (`RateLimiter::poll_ready` polls the instance that `call` then uses). -/
+def wire : Ev → Ev
+  | .innerCall c k => .innerCallX c k c true
+  | .innerCallX c k tag _ => .innerCallX c k tag true
+  | e => e
 
 def machine : Machine where
   σ := Cfg × State
@@ -281,7 +306,7 @@ def machine : Machine where
     (cfg, init cfg)
   step := fun (cfg, s) ws =>
     match parseOp ws with
-    | some op => let s' := stepS cfg s op; ((cfg, s'), s'.log.drop s.log.length)
+    | some op => let s' := stepS cfg s op; ((cfg, s'), (s'.log.drop s.log.length).map wire)
     | none => ((cfg, s), [])
   now := fun (_, s) => s.now
 
